@@ -339,6 +339,21 @@ def execute(plan):
         if len(X) == 0 or np.asarray(X[-1]).tobytes() != np.asarray(xk).tobytes():
             add("newest_point_not_retained", {"where": "memory after the switch", "mode": sw["mode"], "stored_points": len(X), "newest_rejected_at_switch": not accepted})
 
+    def on_use(act, X, G, mats, uinfo):
+        # the matrices the first iteration after the rewrite computes its step with
+        if not info.get("fired") or switch_state.get("use_checked"):
+            return
+        switch_state["use_checked"] = True
+        stats["or.matrices_used_after_switch"] += 1
+        if len(X) != len(G):
+            res = [("deques_out_of_step", {"len_X": len(X), "len_G": len(G)})]
+        elif len(X) <= 1:
+            res = [("matrix_built_from_other_pairs", {"pairs": 0})] if (mats.use_factor and np.any(mats.W)) else []
+        else:
+            res = c10.check_memory(X, G, mats, int(uinfo["maxcor"]), eps, stats)
+        for clause, w in res:
+            add("matrices_not_rebuilt_from_rewritten_history", dict(w, sub_clause=clause, where="use site of the next iteration", mode=sw["mode"]))
+
     c = dict(cfg)
     c["callback"] = {}
     c["update"] = {"mode": sw["mode"]}
@@ -372,7 +387,7 @@ def execute(plan):
         # (the restored points and the restart point enter the universe, oldest first, when the
         # start-up update event is read)
         stats["probe.rewrite_at_startup_of_restart"] += 1
-    A = Act(problem, c, world=W, checkpoint=ck0, on_state=on_state, on_update=on_update).run()
+    A = Act(problem, c, world=W, checkpoint=ck0, on_state=on_state, on_update=on_update, on_use=on_use).run()
     stats["activations"] += 1
     stats["events"] += A.n_events
     if A.result is None:
